@@ -5,5 +5,6 @@ CONSTANTS
   OpsUsed = {"*", "/", "+", "=", "AND", "OR"}
   SubOps = {"*", "+", "=", "AND", "OR"}
   Nest = {1}
+  Lits = {}
 INVARIANTS Agree Fold ReparseStable
 CHECK_DEADLOCK FALSE
